@@ -26,6 +26,7 @@ From Coq Require Import Strings.String Strings.Ascii.
 From CG3 Require Import Lib.PyZ Lib.Val Lib.PySlice Model.View.
 From CG3 Require Model.IndelMap.
 From CG3 Require Lib.Rose Model.Tree Model.TreeJson.
+From CG3 Require Model.FeatureMap Model.AnnotDb.
 
 (** * strings *)
 
@@ -116,6 +117,25 @@ Definition k_args := zs "args".
 Definition k_kwargs := zs "kwargs".
 Definition k_message := zs "message".
 Definition k_source := zs "source".
+Definition k_dists := zs "dists".
+Definition k_invalid := zs "invalid".
+Definition k_spans := zs "spans".
+Definition k_start := zs "start".
+Definition k_end := zs "end".
+Definition k_reverse := zs "reverse".
+Definition k_tidy_start := zs "tidy_start".
+Definition k_tidy_end := zs "tidy_end".
+Definition k_value := zs "value".
+Definition k_tables := zs "tables".
+Definition k_annotation_db := zs "annotation_db".
+Definition k_biotype := zs "biotype".
+Definition k_strand := zs "strand".
+Definition k_attributes := zs "attributes".
+Definition k_on_alignment := zs "on_alignment".
+Definition k_stop := zs "stop".
+Definition k_user := zs "user".
+Definition k_label := zs "moltype".
+Definition float_zero := zs "0.0".
 
 Definition version_str := zs "2024.7.19a6".
 
@@ -147,6 +167,12 @@ Definition ty_table := zs "cogent3.util.table.Table".
 Definition ty_columns := zs "cogent3.util.table.Columns".
 Definition ty_dictarray := zs "cogent3.util.dict_array.DictArrayTemplate".
 Definition ty_notcompleted := zs "cogent3.app.composable.NotCompleted".
+Definition ty_dmat := zs "cogent3.evolve.fast_distance.DistanceMatrix".
+Definition ty_fmap := zs "cogent3.core.location.FeatureMap".
+Definition ty_span := zs "cogent3.core.location.Span".
+Definition ty_lostspan := zs "cogent3.core.location._LostSpan".
+Definition ty_basicdb := zs "cogent3.core.annotation_db.BasicAnnotationDb".
+Definition ty_moltype := zs "cogent3.core.moltype.MolType".
 
 Definition label_of (k : kind) : list Z :=
   match k with KDna => zs "dna" | KRna => zs "rna" | KOther => zs "text" end.
@@ -597,6 +623,242 @@ Definition nc_of_dict (d : dict) : res notcompleted :=
   | _, _ => Err E_Type
   end).
 
+
+(** * distance matrices *)
+
+(** python [<] on strings: lexicographic on code points *)
+Fixpoint str_ltb (a b : list Z) : bool :=
+  match a, b with
+  | [], [] => false
+  | [], _ :: _ => true
+  | _ :: _, [] => false
+  | x :: a', y :: b' => (x <? y) || ((x =? y) && str_ltb a' b')
+  end.
+
+(** [sorted(set(names))]: insertion into a strictly increasing list, duplicates dropped *)
+Fixpoint sins (x : list Z) (l : list (list Z)) : list (list Z) :=
+  match l with
+  | [] => [x]
+  | y :: r => if zeqb x y then l else if str_ltb x y then x :: l else y :: sins x r
+  end.
+Definition sort_names (l : list (list Z)) : list (list Z) := fold_right sins [] l.
+
+(** a [DistanceMatrix]: names, the square array row by row, the [invalid] attribute *)
+Record dmat := mkDm { dm_names : list (list Z); dm_rows : list (list json); dm_invalid : json }.
+
+(** [to_dict()]: the flattened {(row name, column name): value} without the diagonal, as a list of triples *)
+Definition dm_triples (d : dmat) : list json :=
+  flat_map (fun ar =>
+    flat_map (fun bv => if zeqb (fst ar) (fst bv) then [] else [JArr [JStr (fst ar); JStr (fst bv); snd bv]])
+             (combine (dm_names d) (snd ar)))
+    (combine (dm_names d) (dm_rows d)).
+
+Definition dmat_to_dict (d : dmat) : json :=
+  JObj [ (k_dists, JArr (dm_triples d)); (k_invalid, dm_invalid d); (k_type, JStr ty_dmat); (k_version, JStr version_str) ].
+
+Definition pairdict := list ((list Z * list Z) * json).
+
+Fixpoint pset (a b : list Z) (v : json) (d : pairdict) : pairdict :=
+  match d with
+  | [] => [((a, b), v)]
+  | ((a', b'), v') :: r => if zeqb a a' && zeqb b b' then ((a, b), v) :: r else ((a', b'), v') :: pset a b v r
+  end.
+
+Fixpoint pget (d : pairdict) (a b : list Z) : option json :=
+  match d with
+  | [] => None
+  | ((a', b'), v) :: r => if zeqb a a' && zeqb b b' then Some v else pget r a b
+  end.
+
+(** [dists[tuple(element[:2])] = element[2]] for every element *)
+Fixpoint pairs_of (l : list json) (acc : pairdict) : res pairdict :=
+  match l with
+  | [] => Ok acc
+  | JArr [JStr a; JStr b; v] :: r => pairs_of r (pset a b v acc)
+  | _ :: _ => Err E_Type
+  end.
+
+(** [deserialise_tabular] for a DistanceMatrix: [DistanceMatrix(dists={(a, b): v}, invalid=...)] -> [convert2Ddistance]:
+    the names are the SORTED set of all names in the keys; cell (n1, n2) is [dists.get((n1, n2), dists.get((n2, n1), 0))]
+    (so the diagonal, which is not written, reads back as 0.0); an empty dict raises IndexError ([list(data)[0]]).
+    The [float] cast of the array is the identity on what the encoder writes. *)
+Definition dmat_of_dict (d : dict) : res dmat :=
+  match jget k_dists d with
+  | Some (JArr l) =>
+      bind (pairs_of l []) (fun T =>
+      match T with
+      | [] => Err E_Index
+      | _ =>
+          let names := sort_names (flat_map (fun kv => [fst (fst kv); snd (fst kv)]) T) in
+          let cell n1 n2 := match pget T n1 n2 with
+                            | Some v => v
+                            | None => match pget T n2 n1 with Some v => v | None => JFloat float_zero end
+                            end in
+          Ok (mkDm names (map (fun n1 => map (cell n1) names) names)
+                   (match jget k_invalid d with Some j => j | None => JNull end))
+      end)
+  | Some _ => Err E_Type
+  | None => Err E_Key
+  end.
+
+(** a profile array (MotifCountsArray / MotifFreqsArray / PSSM): a DictArray subclass.  It inherits
+    [DictArray.to_rich_dict], which writes the provenance of the TEMPLATE as "type" *)
+Inductive profile_class := PCounts | PFreqs | PPssm.
+
+(** * feature maps and spans (the span type of C08: Model/FeatureMap.v) *)
+
+Definition span_to_dict (sp : FeatureMap.fspan) : json :=
+  match sp with
+  | FeatureMap.FS s e r =>
+      JObj [ (k_start, JInt s); (k_end, JInt e); (k_tidy_start, JBool false); (k_tidy_end, JBool false);
+             (k_value, JNull); (k_reverse, JBool r); (k_type, JStr ty_span); (k_version, JStr version_str) ]
+  | FeatureMap.FL n =>
+      JObj [ (k_length, JInt n); (k_value, JNull); (k_type, JStr ty_lostspan); (k_version, JStr version_str) ]
+  end.
+
+(** [FeatureMap.to_rich_dict] *)
+Definition fmap_to_dict (m : FeatureMap.fmap) : json :=
+  JObj [ (k_parent_length, JInt (FeatureMap.fplen m));
+         (k_spans, JArr (map span_to_dict (FeatureMap.fspans m)));
+         (k_type, JStr ty_fmap); (k_version, JStr version_str) ].
+
+(** [klass] on the unpacked element, for one span dict: [Span(start, end, ..., reverse)] (swaps start and end when start > end)
+    or [_LostSpan(length)] *)
+Definition span_of_dict (d : dict) : res FeatureMap.fspan :=
+  bind (get_str (jget k_type d)) (fun ty =>
+  if zeqb ty ty_span then
+    bind (get_int (jget k_start d)) (fun s =>
+    bind (get_int (jget k_end d)) (fun e =>
+    match jget k_reverse d with
+    | Some (JBool r) => Ok (FeatureMap.mk_span s e r)
+    | None => Ok (FeatureMap.mk_span s e false)
+    | Some _ => Err E_Type
+    end))
+  else if zeqb ty ty_lostspan then bind (get_int (jget k_length d)) (fun n => Ok (FeatureMap.FL n))
+  else Err E_Other).
+
+Fixpoint spans_of_json (l : list json) : res (list FeatureMap.fspan) :=
+  match l with
+  | [] => Ok []
+  | JObj d :: r => bind (span_of_dict d) (fun sp => bind (spans_of_json r) (fun rr => Ok (sp :: rr)))
+  | _ :: _ => Err E_Type
+  end.
+
+(** [FeatureMap.from_rich_dict] *)
+Definition fmap_of_dict (d : dict) : res FeatureMap.fmap :=
+  match jget k_spans d with
+  | Some (JArr l) =>
+      bind (spans_of_json l) (fun sps =>
+      bind (get_int (jget k_parent_length d)) (fun pl => Ok (FeatureMap.mk_fmap sps pl)))
+  | Some _ => Err E_Type
+  | None => Err E_Key
+  end.
+
+(** * annotation databases (the records of C17: Model/AnnotDb.v) *)
+
+(** an optional field: written only when the value is not None *)
+Definition ofield (k : list Z) (o : option json) : dict := match o with Some j => [(k, j)] | None => [] end.
+
+Definition spans_to_json (sp : list (Z * Z)) : json := JArr (map (fun p => JArr [JInt (fst p); JInt (snd p)]) sp).
+
+(** one record as [to_rich_dict] stores it: [{k: v for k, v in zip(record.keys(), record) if v is not None}],
+    the spans as nested lists; [on_alignment] is an sqlite integer *)
+Definition row_to_json (r : AnnotDb.row) : json :=
+  JObj (ofield k_seqid (option_map JStr (AnnotDb.r_seqid r))
+        ++ ofield k_biotype (option_map JStr (AnnotDb.r_biotype r))
+        ++ ofield k_name (option_map JStr (AnnotDb.r_name r))
+        ++ ofield k_strand (option_map JStr (AnnotDb.r_strand r))
+        ++ ofield k_attributes (option_map JStr (AnnotDb.r_attrs r))
+        ++ ofield k_on_alignment (option_map (fun b : bool => JInt (if b then 1 else 0)) (AnnotDb.r_on_aln r))
+        ++ [ (k_spans, spans_to_json (AnnotDb.r_spans r)); (k_start, JInt (AnnotDb.r_start r)); (k_stop, JInt (AnnotDb.r_stop r)) ]).
+
+(** table names: 1 = "user"; 0 = the class' own table (gff / gb), written under the key "0" in this model *)
+Definition table_key (t : Z) : list Z := if t =? 1 then k_user else [48].
+
+(** [BasicAnnotationDb.to_rich_dict] on the C17 image [to_rich tables db] *)
+Definition db_to_dict (tables : list Z) (db : list AnnotDb.row) : json :=
+  JObj [ (k_type, JStr ty_basicdb); (k_version, JStr version_str);
+         (k_tables, JObj (map (fun tr => (table_key (fst tr), JArr (map row_to_json (snd tr)))) (AnnotDb.to_rich tables db)));
+         (k_init_args, JObj []) ].
+
+Fixpoint spans_of_json2 (l : list json) : res (list (Z * Z)) :=
+  match l with
+  | [] => Ok []
+  | JArr [JInt a; JInt b] :: r => bind (spans_of_json2 r) (fun rr => Ok ((a, b) :: rr))
+  | _ :: _ => Err E_Type
+  end.
+
+Definition row_of_dict (t : Z) (d : dict) : res AnnotDb.row :=
+  bind (get_opt_str (jget k_seqid d)) (fun sid =>
+  bind (get_opt_str (jget k_biotype d)) (fun bt =>
+  bind (get_opt_str (jget k_name d)) (fun nm =>
+  bind (get_opt_str (jget k_strand d)) (fun sd =>
+  bind (get_opt_str (jget k_attributes d)) (fun at_ =>
+  bind (match jget k_on_alignment d with
+        | Some (JInt z) => Ok (Some (negb (z =? 0)))
+        | Some JNull | None => Ok None
+        | Some _ => Err E_Type
+        end) (fun oa =>
+  match jget k_spans d with
+  | Some (JArr l) =>
+      bind (spans_of_json2 l) (fun sp =>
+      bind (get_int (jget k_start d)) (fun a =>
+      bind (get_int (jget k_stop d)) (fun b =>
+      Ok (AnnotDb.Build_row t sid bt nm sd at_ oa sp a b))))
+  | Some _ => Err E_Type
+  | None => Err E_Key
+  end)))))).
+
+Fixpoint rows_of_json (t : Z) (l : list json) : res (list AnnotDb.row) :=
+  match l with
+  | [] => Ok []
+  | JObj d :: r => bind (row_of_dict t d) (fun x => bind (rows_of_json t r) (fun rr => Ok (x :: rr)))
+  | _ :: _ => Err E_Type
+  end.
+
+Definition table_of_key (k : list Z) : Z := if zeqb k k_user then 1 else 0.
+
+Fixpoint tables_of_dict (l : dict) : res (list (Z * list AnnotDb.row)) :=
+  match l with
+  | [] => Ok []
+  | (k, JArr rs) :: r =>
+      bind (rows_of_json (table_of_key k) rs) (fun rows => bind (tables_of_dict r) (fun rr => Ok ((table_of_key k, rows) :: rr)))
+  | _ :: _ => Err E_Type
+  end.
+
+(** [deserialise_basic_db] -> [from_dict] -> [_update_db_from_rich_dict]: every record of every table is inserted
+    again, table by table: the C17 [from_rich] *)
+Definition db_of_dict (d : dict) : res (list AnnotDb.row) :=
+  bind (get_obj (jget k_tables d)) (fun ts => bind (tables_of_dict ts) (fun tl => Ok (AnnotDb.from_rich tl))).
+
+(** an old-style sequence with its annotation db: [to_rich_dict()] adds "annotation_db" when the db holds records *)
+Definition seq_db_to_dict (s : seqobj) (tables : list Z) (db : list AnnotDb.row) : json :=
+  match seq_to_dict SOld s, db with
+  | JObj d, _ :: _ => JObj (d ++ [(k_annotation_db, db_to_dict tables db)])
+  | j, _ => j
+  end.
+
+(** [deserialise_seq]: [annotation_db = data.pop("annotation_db", None)] ... [result.annotation_db = deserialise_object(annotation_db)] *)
+Definition seq_db_of_dict (d : dict) : res (seqobj * list AnnotDb.row) :=
+  bind (seq_of_dict_old d) (fun s =>
+  match jget k_annotation_db d with
+  | Some (JObj dbd) => bind (db_of_dict dbd) (fun rows => Ok (s, rows))
+  | Some JNull | None => Ok (s, [])
+  | Some _ => Err E_Type
+  end).
+
+(** * named constants: moltypes are serialised by label *)
+
+(** [MolType.to_rich_dict]: {"type", "moltype": label, "version"}; [deserialise_moltype]: [get_moltype(label)] *)
+Definition moltype_labels : list (list Z) :=
+  [zs "dna"; zs "rna"; zs "protein"; zs "protein_with_stop"; zs "text"; zs "bytes"].
+
+Definition moltype_to_dict (label : list Z) : json :=
+  JObj [ (k_type, JStr ty_moltype); (k_label, JStr label); (k_version, JStr version_str) ].
+
+Definition moltype_of_dict (d : dict) : res (list Z) :=
+  bind (get_str (jget k_label d)) (fun l => if mem_str l moltype_labels then Ok l else Err E_Value).
+
 (** * the registry *)
 
 (** the deserialiser functions, by name *)
@@ -724,7 +986,13 @@ Inductive obj :=
 | OTree (t : Rose.tree)
 | OTable (t : table)
 | ODarr (a : darr)
-| ONotCompleted (n : notcompleted).
+| ONotCompleted (n : notcompleted)
+| ODmat (m : dmat)
+| OProfile (c : profile_class) (a : darr)
+| OFmap (m : FeatureMap.fmap)
+| ODb (tables : list Z) (rows : list AnnotDb.row)
+| OSeqDb (s : seqobj) (tables : list Z) (rows : list AnnotDb.row)
+| OMolType (label : list Z).
 
 Definition to_dict (x : obj) : json :=
   match x with
@@ -737,6 +1005,12 @@ Definition to_dict (x : obj) : json :=
   | OTable t => table_to_dict t
   | ODarr a => darr_to_dict a
   | ONotCompleted n => nc_to_dict n
+  | ODmat m => dmat_to_dict m
+  | OProfile _ a => darr_to_dict a               (* inherited DictArray.to_rich_dict: the class is not written *)
+  | OFmap m => fmap_to_dict m
+  | ODb tables rows => db_to_dict tables rows
+  | OSeqDb s tables rows => seq_db_to_dict s tables rows
+  | OMolType l => moltype_to_dict l
   end.
 
 Definition s_Table := zs "Table".
@@ -746,7 +1020,14 @@ Definition s_dictarray := zs "dictarray".
 Definition run_decoder (f : decoder) (d : dict) : res obj :=
   match f with
   | DSeqView => bind (view_of_dict_old d) (fun '(v, sg, sid) => Ok (OView v sg sid))
-  | DSeq => bind (seq_of_dict_old d) (fun s => Ok (OSeq SOld s))
+  | DSeq =>
+      match jget k_annotation_db d with
+      | Some (JObj _) => bind (seq_db_of_dict d) (fun sr => Ok (OSeqDb (fst sr) [0; 1] (snd sr)))
+      | _ => bind (seq_of_dict_old d) (fun s => Ok (OSeq SOld s))
+      end
+  | DFeatureMap => bind (fmap_of_dict d) (fun m => Ok (OFmap m))
+  | DBasicDb => bind (db_of_dict d) (fun rows => Ok (ODb [0; 1] rows))
+  | DMolType => bind (moltype_of_dict d) (fun l => Ok (OMolType l))
   | DNewSequence | DNewDnaSequence | DNewRnaSequence => bind (seq_of_dict_new d) (fun s => Ok (OSeq SNew s))
   | DIndelMap => bind (imap_of_dict d) (fun m => Ok (OImap m))
   | DAligned => bind (aligned_of_dict d) (fun a => Ok (OAligned a))
@@ -759,7 +1040,7 @@ Definition run_decoder (f : decoder) (d : dict) : res obj :=
       | Some (JStr ty) =>
           if is_suffix s_Table ty then bind (table_of_dict d) (fun t => Ok (OTable t))
           else if is_infix s_dictarray (lower ty) then bind (darr_of_dict d) (fun a => Ok (ODarr a))
-          else Err E_Other                (* DistanceMatrix: outside the model *)
+          else bind (dmat_of_dict d) (fun m => Ok (ODmat m))
       | _ => Err E_Key
       end
   | _ => Err E_Other                      (* decoder outside the model *)
